@@ -220,3 +220,59 @@ func zzC04DenseObservers(L int) {
 
 func ZZ_C04_dense_observers_L0() { zzC04DenseObservers(0) }
 func ZZ_C04_dense_observers_L4() { zzC04DenseObservers(4) }
+
+// A realistic array (>= 64 cells, as the real getNewLength allocates) with the window at an
+// enumerated position inside and the new index at an enumerated distance: exercises small shifts,
+// growth by a few cells and the "fits in the array" branch. Base index and weights stay symbolic.
+func zzC04DenseAddBig(L int, starts []int, widths []int, dists []int) {
+	zzvBound("dense realistic array", "array of 66 cells (64 is the smallest the real code allocates), window start/width and distance of the new index enumerated from the listed sets; index base symbolic in int32; weights symbolic")
+	a := starts[zzvChoose("windowStart", len(starts))]
+	W := widths[zzvChoose("windowWidth", len(widths))]
+	if a+W > L {
+		return
+	}
+	base := zzvMInt("base", -(1 << 31), 1<<31)
+	bins := make([]float64, L)
+	sum := 0.0
+	for k := 0; k < W; k++ {
+		if k == 0 || k == W-1 {
+			bins[a+k] = zzWPos("cell")
+		} else {
+			bins[a+k] = zzW("cell")
+		}
+		sum += bins[a+k]
+	}
+	s := &DenseStore{bins: bins, count: sum, offset: base, minIndex: base + a, maxIndex: base + a + W - 1}
+	zzvAssume(zzInvDense(s))
+	pre := zzSnapDense(s)
+	d := dists[zzvChoose("distance", len(dists))]
+	var i int
+	if zzvChoose("side", 2) == 0 {
+		i = s.minIndex - d
+	} else {
+		i = s.maxIndex + d
+	}
+	zzvAssume(zzvAnd(i >= -(1<<31), i < 1<<31))
+	c := zzWPos("c")
+	zzvCover("pre-state")
+	s.AddWithCount(i, c)
+	zzvAssert("inv-preserved", zzInvDense(s))
+	zzvAssert("count-conserved", s.count == pre.count+c)
+	p := base + zzvMInt("probeRel", -200, 300)
+	zzvAssert("content", zzAbsDense(s, p) == zzAbsDense(&pre, p)+zzvIteF64(p == i, c, 0))
+}
+
+func ZZ_C04_dense_add_big_Q() {
+	zzC04DenseAddBig(66, []int{0, 1, 31, 60, 63, 65}, []int{1, 3, 6}, []int{1, 2, 3, 4, 33, 70})
+}
+func ZZ_C04_dense_add_big_T() {
+	starts := make([]int, 66)
+	for k := range starts {
+		starts[k] = k
+	}
+	dists := make([]int, 80)
+	for k := range dists {
+		dists[k] = k + 1
+	}
+	zzC04DenseAddBig(66, starts, []int{1, 2, 3, 6, 40, 66}, dists)
+}
